@@ -263,7 +263,11 @@ func verifC16run(p *vProfile) {
 	a.takeSeg(false)
 	// B: all scopes first, then the registrations in a free order
 	h.apply(b, scopes)
-	perm := vPermute(len(regs), verifNdInt("perm", vFact(len(regs))))
+	nperm := vFact(len(regs))
+	if p.noPerm {
+		nperm = 1
+	}
+	perm := vPermute(len(regs), verifNdInt("perm", nperm))
 	for _, i := range perm {
 		h.apply(b, regs[i:i+1])
 	}
@@ -326,7 +330,7 @@ func verifC16b() { // three registrations incl. a decorator, one scope
 // positional <-> object field (depth 1 or 2), option <-> tag, with/without a
 // trailing variadic parameter.
 func (h *vHist) vAltFunc(f *vFunc, tag string) *vFunc {
-	g := &vFunc{id: f.id, kind: f.kind, retErr: f.retErr, export: f.export, fault: f.fault, callback: f.callback}
+	g := &vFunc{id: f.id, kind: f.kind, retErr: f.retErr, errFirst: f.errFirst, export: f.export, fault: f.fault, callback: f.callback}
 	for i, p := range f.params {
 		q := *p
 		if p.name == "" && !p.optional && p.group == "" {
